@@ -430,7 +430,12 @@ RETCODE adfFileFlush ( struct AdfFile * const file )
         if ( isOFS ( file->volume->dosType ) ) {
             struct bOFSDataBlock *data = (struct bOFSDataBlock *) file->currentData;
             assert ( file->posInDataBlk <= file->volume->datablockSize );
-            data->dataSize = file->posInDataBlk;
+            /* the number of valid bytes in this block follows from the file size,
+               not from where the cursor happens to be */
+            const unsigned dbSize  = file->volume->datablockSize;
+            const unsigned nBlocks = adfFileSize2Datablocks ( file->fileHdr->byteSize, dbSize );
+            data->dataSize = ( file->nDataBlock < nBlocks ) ? dbSize :
+                file->fileHdr->byteSize - ( nBlocks - 1 ) * dbSize;
         }
 
         rc = adfWriteDataBlock ( file->volume,
